@@ -343,9 +343,8 @@ func c17Fields() (names []string, width map[string]int) {
 			continue
 		}
 		info, _ := spec.LookupOXM(uint16(cf[0]), uint8(cf[1]))
-		if info.Variable {
-			continue // tun_metadata: variable width, outside "registered fixed-width fields"
-		}
+		// (tun_metadata0..7 are registered with their maximum width, 124 bytes, and the builder treats them like
+		// any other field of that width: values above 2^224 and windows near bit 991 exist only here)
 		names = append(names, n)
 		width[n] = info.Width
 	}
@@ -438,10 +437,17 @@ func TestC17(t *testing.T) {
 		} else {
 			w = bits
 		}
+		// an explicit width of zero: legal for the value 0 (a field with an empty mask), an error for anything else
+		zeroWidth := nwin >= 2 && gen.Pick(rt, "zero_width", 12) == 0
+		if zeroWidth {
+			w = 0
+		}
 		// value inside the window
 		var v *big.Int
-		switch gen.Pick(rt, "vclass", 6) {
-		case 0, 1, 2, 3, 4:
+		switch vc := gen.Pick(rt, "vclass", 6); {
+		case zeroWidth:
+			v = big.NewInt(int64(gen.Pick(rt, "zero_width_value", 4)))
+		case vc <= 4:
 			v = windowValues(w)[gen.Pick(rt, "bv", 5)]
 		default:
 			v = new(big.Int).SetBytes(rapid.SliceOfN(rapid.Byte(), (w+7)/8, (w+7)/8).Draw(rt, "vbytes"))
